@@ -327,7 +327,11 @@ func (e *Env) ident(name string) *Val {
 		}
 	}
 	if g, ok := fx.eng.specs.Ghosts[name]; ok {
-		return &Val{T: fx.heapGet(e.st, "G$"+g.Name, g.Sort), Ty: nil}
+		var ty types.Type
+		if g.Sort == "Sl" {
+			ty = fx.eng.ghostType(g)
+		}
+		return &Val{T: fx.heapGet(e.st, "G$"+g.Name, g.Sort), Ty: ty}
 	}
 	return e.errorf("unknown identifier %s", name)
 }
@@ -1332,14 +1336,10 @@ func (e *Env) call(x *ast.CallExpr) *Val {
 	if name == "fmt.Sprintf" && len(x.Args) >= 1 {
 		// the symbol the code gets for a Sprintf whose operands are plain basic values (plainVariadic)
 		args := []*Val{argv(0)}
-		empty := types.NewInterfaceType(nil, nil)
 		for i := 1; i < len(x.Args); i++ {
 			v := argv(i)
 			if v == nil || v.Ty == nil {
 				return e.errorf("fmt.Sprintf: untyped operand")
-			}
-			if _, isIf := v.Ty.Underlying().(*types.Interface); !isIf {
-				v = fx.makeIface(e.st, v, empty)
 			}
 			args = append(args, v)
 		}
